@@ -626,4 +626,62 @@ example : (match polyScaleCompositeFull demoChild [([.str "a"], 4), ([.str "a", 
 /-- `None` with a range end 0: the other refusal -/
 example : polyScaleErrOf (polyScaleCompositeFull demoChild [([.str "a"], 4)] none (.num 0) none []) = some .rangeZero := by decide +kernel
 
+/-! ## Round 8: `TrackingComposite` through all three entry points, with its log -/
+
+/-- **TrackingComposite.sample / sample_ising / sample_qubo as coded** (`self.child.<same method>` and the log), for every
+    child class implementing one of the three methods with the energy contract: the returned rows are the child's answer to
+    the same call and carry the energy of the submitted problem (BQM with offset / Ising / QUBO); the log grows by exactly
+    this input and this output and nothing logged before changes; `output` afterwards is the returned answer. -/
+theorem tracking_composite_entries (impl : Impl) (child : Bqm → List Row) (hc : ChildOK child) (log : TrackLog) (inp : TrackedInput) :
+    (match inp with
+     | .bqm m => (trackingCall impl child log inp).1 = mixinSample impl child m ∧
+                 ∀ r ∈ (trackingCall impl child log inp).1, r.energy = m.energy r.val
+     | .ising h J => (trackingCall impl child log inp).1 = mixinIsing impl child h J ∧
+                 ∀ r ∈ (trackingCall impl child log inp).1, r.energy = linE r.val h + quadE r.val J
+     | .qubo lin quad => (trackingCall impl child log inp).1 = mixinQubo impl child lin quad ∧
+                 ∀ r ∈ (trackingCall impl child log inp).1, r.energy = linE r.val lin + quadE r.val quad) ∧
+    (trackingCall impl child log inp).2.length = log.length + 1 ∧
+    (trackingCall impl child log inp).2.take log.length = log ∧
+    trackingOutput (trackingCall impl child log inp).2 = some (trackingCall impl child log inp).1 := by
+  refine ⟨?_, ?_, ?_, ?_⟩
+  · cases inp with
+    | bqm m => exact ⟨rfl, mixin_energy_offset impl child hc m⟩
+    | ising h J => exact ⟨rfl, mixin_energy_ising impl child hc h J⟩
+    | qubo lin quad => exact ⟨rfl, mixin_energy_qubo impl child hc lin quad⟩
+  · simp [trackingCall]
+  · simp [trackingCall]
+  · simp [trackingCall, trackingOutput]
+
+/-- the log accessors: `input` / `output` on an empty log are refused (`ValueError`), `clear` empties the log, and after
+    any sequence of calls the log has one entry per call, every entry pairing an input with the rows returned for it -/
+theorem tracking_log_history (impl : Impl) (child : Bqm → List Row) (inputs : List TrackedInput) :
+    trackingOutput [] = none ∧ trackingInput [] = none ∧ (∀ log, trackingClear log = []) ∧
+    (inputs.foldl (fun log inp => (trackingCall impl child log inp).2) []).length = inputs.length ∧
+    ∀ e ∈ inputs.foldl (fun log inp => (trackingCall impl child log inp).2) [], e.2 = (trackingCall impl child [] e.1).1 := by
+  refine ⟨rfl, rfl, fun _ => rfl, ?_, ?_⟩
+  · have h : ∀ (l : List TrackedInput) (log : TrackLog),
+        (l.foldl (fun log inp => (trackingCall impl child log inp).2) log).length = log.length + l.length := by
+      have hl : ∀ (log : TrackLog) (a : TrackedInput), (trackingCall impl child log a).2.length = log.length + 1 := by
+        intro log a; simp [trackingCall]
+      intro l
+      induction l with
+      | nil => intro log; simp
+      | cons a t ih => intro log; rw [List.foldl_cons, ih, hl, List.length_cons]; omega
+    simpa using h inputs []
+  · have h : ∀ (l : List TrackedInput) (log : TrackLog), (∀ e ∈ log, e.2 = (trackingCall impl child [] e.1).1) →
+        ∀ e ∈ l.foldl (fun log inp => (trackingCall impl child log inp).2) log, e.2 = (trackingCall impl child [] e.1).1 := by
+      intro l
+      induction l with
+      | nil => intro log hl; simpa using hl
+      | cons a t ih =>
+        intro log hl
+        simp only [List.foldl_cons]
+        apply ih
+        intro e he
+        simp only [trackingCall, List.mem_append, List.mem_singleton] at he
+        rcases he with he | he
+        · exact hl e he
+        · subst he; simp [trackingCall]
+    exact h inputs [] (by simp)
+
 end C07
